@@ -245,7 +245,10 @@ impl<'a, 'tcx> Cx<'a, 'tcx> {
         // evaluated value of a const when it is a scalar or a byte array/slice ref
         let tcx = self.tcx;
         // an associated const *declared* in a trait (`const LIMIT: usize;`) has no body to evaluate; the value depends on the impl
-        if matches!(tcx.def_kind(did), DefKind::AssocConst { .. }) && !tcx.defaultness(did).has_value() {
+        if matches!(tcx.def_kind(did), DefKind::AssocConst { .. })
+            && matches!(tcx.def_kind(tcx.parent(did)), DefKind::Trait)
+            && !tcx.defaultness(did).has_value()
+        {
             return J::Null;
         }
         if let Ok(val) = tcx.const_eval_poly(did) {
